@@ -152,6 +152,14 @@ Proof.
     try (apply andb_true_iff in H; destruct H as [H _]); now apply N.eqb_eq in H.
 Qed.
 
+Lemma lenN_wr_ec3subs_sz l : lenN (flat_map wr_ec3sub l) =
+  sumN (map (fun s : N * N * N * N * N * N * N * N => match s with (_, _, _, _, _, _, nds, _) => if 0 <? nds then 4 else 3 end) l).
+Proof.
+  induction l as [|s t IH]; [reflexivity|]. cbn [flat_map map sumN]. rewrite lenN_app, IH. f_equal.
+  destruct s as [[[[[[[a b] c] d] e] f] nds] cl]. cbn [wr_ec3sub]. destruct (0 <? nds);
+    repeat rewrite lenN_app; repeat rewrite lenN_be_enc; reflexivity.
+Qed.
+
 (* bytes written by a leaf encoder = Size() *)
 Lemma leaf_size l b :
   raw_leaf l (dflt_rsv l) = Ok b -> leaf_size_guard l = true -> lenN b = size_leaf l.
@@ -262,4 +270,6 @@ Proof.
   - (* data *) lens. lia.
   - (* mime *) cbn [size_leaf]. destruct lacks; lens; lia.
   - (* wvtt *) lens. lia.
+  - (* dac3 *) lens. rewrite ?lenN_zeros, ?N2Nat.id. lia.
+  - (* dec3 *) cbn [size_leaf]. lens. rewrite lenN_wr_ec3subs_sz. lia.
 Qed.
